@@ -100,6 +100,7 @@ package server
 
 // postconditions transcribed from the property statement (C03), not from the code
 //@ func getCacheMaxAge(header http.Header) (maxAge int)
+//@   uses nocache-ci
 //@   nopanic
 //@   ensures [cookie] vlen(hdr(header)["Set-Cookie"]) > 0 ==> maxAge == 0
 //@   ensures [nocc]   ccOf(header) == "" ==> maxAge == 0
